@@ -19,6 +19,7 @@ func main() {
 		evdir   = flag.String("evidence", "/verif/evidence", "evidence directory")
 		kf      = flag.String("known", "/verif/known_findings.json", "known findings file")
 		ov      = flag.String("overlay", "", "audit only: comma-separated orig=replacement source overlays")
+		inv     = flag.Bool("inventory", false, "debug: print the blocking-operation and goroutine inventory as markdown")
 	)
 	flag.Parse()
 	for _, kv := range strings.Split(*ov, ",") {
@@ -31,6 +32,24 @@ func main() {
 	}
 	if *tier != "thorough" {
 		*tier = "quick"
+	}
+	if *inv {
+		p, err := loadProg(*repo)
+		if err != nil {
+			fmt.Fprintln(os.Stderr, err)
+			os.Exit(2)
+		}
+		c := newCtx(p, "inventory", "quick")
+		runs := findRunFuncs(p, rootRels)
+		fmt.Println("| function | operation | class | justification |\n|---|---|---|---|")
+		for _, s := range buildInventory(c, rootRels, runs) {
+			cl := s.Class
+			if cl == "" {
+				cl = "**unclassified**"
+			}
+			fmt.Printf("| `%s` | `%s` | %s | %s |\n", fnName(s.Fn), s.Desc, cl, s.Why)
+		}
+		return
 	}
 	if *dump != "" {
 		p, err := loadProg(*repo)
